@@ -12,11 +12,11 @@ set_option maxHeartbeats 16000000 in
 theorem ssecnt_countbody_inv (mem : Nat → UInt8) (base len : Nat) (c : UInt8) (h16 : 16 ≤ len) (hb : base + len + 32 < 2 ^ 62) :
     ∀ (n di acc : Nat) (s : St) (f : Nat),
       s.r .SI = base → s.r .DI = base + di → s.r .AX = base + len - 16 → s.r .BX = len → s.r .R12 = acc →
-      (∀ j, s.x .X0 j = c) → (∀ j, s.x .X2 j = 0x20) → s.mem = mem → s.out = none →
+      (∀ j, s.x .X0 j = c) → (∀ _j : Nat, True) → s.mem = mem → s.out = none →
       di ≤ len → acc ≤ di → len < n * 16 + di → 8 * n + 20 ≤ f →
-      (run Gen.Asm.ssecnt_countbody f (Lentry Gen.Asm.ssecnt_countbody) s).out =
+      (run Gen.Asm.body_countbody f (Lentry Gen.Asm.body_countbody) s).out =
           some (((cntLoop P16 (fun b => b == c) mem base len n di acc).1 : Nat) : Int) ∧
-      (run Gen.Asm.ssecnt_countbody f (Lentry Gen.Asm.ssecnt_countbody) s).loads =
+      (run Gen.Asm.body_countbody f (Lentry Gen.Asm.body_countbody) s).loads =
           s.loads ++ (cntLoop P16 (fun b => b == c) mem base len n di acc).2 := by
   intro n
   induction n with
@@ -43,14 +43,14 @@ theorem ssecnt_countbody_inv (mem : Nat → UInt8) (base len : Nat) (c : UInt8) 
         rw [hW]; omega
       have hadd : (base + di + 16 % W64) % W64 = base + (di + 16) := by rw [hW]; omega
       obtain ⟨g, rfl⟩ : ∃ g, f = g + 8 := ⟨f - 8, by omega⟩
-      have hstep : ∃ s' : St, run Gen.Asm.ssecnt_countbody (g + 8) (Lentry Gen.Asm.ssecnt_countbody) s =
-            run Gen.Asm.ssecnt_countbody g (Lentry Gen.Asm.ssecnt_countbody) s' ∧
+      have hstep : ∃ s' : St, run Gen.Asm.body_countbody (g + 8) (Lentry Gen.Asm.body_countbody) s =
+            run Gen.Asm.body_countbody g (Lentry Gen.Asm.body_countbody) s' ∧
           s'.r .SI = base ∧ s'.r .DI = base + (di + 16) ∧ s'.r .AX = base + len - 16 ∧ s'.r .BX = len ∧
           s'.r .R12 = acc + cntBlk (fun b => b == c) mem (base + di) 0 16 ∧ (∀ j, s'.x .X0 j = c) ∧
-          (∀ j, s'.x .X2 j = 0x20) ∧ s'.mem = mem ∧ s'.out = none ∧ s'.loads = s.loads ++ [(base + di, 16)] := by
+          (∀ _j : Nat, True) ∧ s'.mem = mem ∧ s'.out = none ∧ s'.loads = s.loads ++ [(base + di, 16)] := by
         refine ⟨?_, ?_, ?_, ?_, ?_, ?_, ?_, ?_, ?_, ?_, ?_, ?_⟩
         case refine_2 =>
-          asm_step [Gen.Asm.ssecnt_countbody, hSI, hDI, hAX, hBX, hR12, hX0, hX2, hmem, hj, a0, hpc, haccq, hadd]
+          asm_step [Gen.Asm.body_countbody, hSI, hDI, hAX, hBX, hR12, hX0, hX2, hmem, hj, a0, hpc, haccq, hadd]
           rfl
         all_goals simp [hSI, hAX, hBX, hX0, hX2, hout]
       obtain ⟨s', he, i1, i2, i3, i4, i5, i6, i7, i8, i9, i10⟩ := hstep
@@ -69,7 +69,7 @@ theorem ssecnt_countbody_inv (mem : Nat → UInt8) (base len : Nat) (c : UInt8) 
       · rw [if_pos hrem]
         have hz : (len % 16 == 0) = true := beq_iff_eq.mpr hrem
         obtain ⟨g, rfl⟩ : ∃ g, f = g + 20 := ⟨f - 20, by omega⟩
-        constructor <;> asm_step [Gen.Asm.ssecnt_countbody, hSI, hDI, hAX, hBX, hR12, hX0, hX2, hmem, hout, hj, hand, hz, hacc63]
+        constructor <;> asm_step [Gen.Asm.body_countbody, hSI, hDI, hAX, hBX, hR12, hX0, hX2, hmem, hout, hj, hand, hz, hacc63]
       · rw [if_neg hrem]
         have hz : (len % 16 == 0) = false := beq_eq_false_iff_ne.mpr hrem
         have hcx : (16 % W64 + W64 - len % 16 % W64) % W64 = 16 - len % 16 := by rw [hW]; omega
@@ -91,7 +91,7 @@ theorem ssecnt_countbody_inv (mem : Nat → UInt8) (base len : Nat) (c : UInt8) 
         have eaddr : base + (len - 16) = base + len - 16 := by omega
         rw [eaddr]
         obtain ⟨g, rfl⟩ : ∃ g, f = g + 20 := ⟨f - 20, by omega⟩
-        constructor <;> asm_step [Gen.Asm.ssecnt_countbody, hSI, hDI, hAX, hBX, hR12, hX0, hX2, hmem, hout, hj, hand, hz, hcx, hm, a0,
+        constructor <;> asm_step [Gen.Asm.body_countbody, hSI, hDI, hAX, hBX, hR12, hX0, hX2, hmem, hout, hj, hand, hz, hcx, hm, a0,
           hpc, haccq, h63]
 
 set_option maxRecDepth 8000 in
@@ -101,28 +101,26 @@ set_option maxHeartbeats 8000000 in
 theorem ssecnt_countbody_correct (mem : Nat → UInt8) (base len : Nat) (c : UInt8) (s : St) (f : Nat)
     (h16 : 16 ≤ len) (hb : base + len + 32 < 2 ^ 62)
     (hSI : s.r .SI = base) (hDI : s.r .DI = base) (hBX : s.r .BX = len) (hR12 : s.r .R12 = 0)
-    (hX0 : ∀ j, s.x .X0 j = c) (hX2 : ∀ j, s.x .X2 j = 0x20)
+    (hX0 : ∀ j, s.x .X0 j = c) (hX2 : ∀ _j : Nat, True)
     (hmem : s.mem = mem) (hout : s.out = none) (hl : s.loads = []) (hf : 9 * (len + 1) + 24 ≤ f) :
-    (run Gen.Asm.ssecnt_countbody f (block Gen.Asm.ssecnt_countbody "sse") s).out =
+    (run Gen.Asm.body_countbody f (block Gen.Asm.body_countbody "sse") s).out =
         some ((specCount (fun b => b == c) mem base len : Nat) : Int) ∧
-    ∀ ld ∈ (run Gen.Asm.ssecnt_countbody f (block Gen.Asm.ssecnt_countbody "sse") s).loads, base ≤ ld.1 ∧ ld.1 + ld.2 ≤ base + len := by
+    ∀ ld ∈ (run Gen.Asm.body_countbody f (block Gen.Asm.body_countbody "sse") s).loads, base ≤ ld.1 ∧ ld.1 + ld.2 ≤ base + len := by
   have hW : W64 = 2 ^ 64 := rfl
   obtain ⟨g, rfl⟩ : ∃ g, f = g + 2 := ⟨f - 2, by omega⟩
   have alea : (base + len + dispN (-16)) % W64 = base + len - 16 := by rw [dispNm16, hW]; omega
   have hinv := ssecnt_countbody_inv mem base len c h16 hb (len + 1) 0 0
-    { r := fun q => if q = Reg.AX then base + len - 16 else s.r q, x := s.x, zf := s.zf, cf := s.cf, mem := s.mem,
-      loads := s.loads, out := s.out } g
+    { s with r := fun q => if q = Reg.AX then base + len - 16 else s.r q } g
     (by simp [hSI]) (by simp [hDI]) (by simp) (by simp [hBX]) (by simp [hR12]) hX0 hX2 hmem hout
     (by omega) (by omega) (by omega) (by omega)
   have hcor := cntLoop_correct P16 ⟨rfl, rfl, by decide⟩ (fun b => b == c) mem base len h16 (len + 1) 0 0 (by omega)
     (by show len < (len + 1 + 0) * 16; omega) (by simp [cntBlk])
   have e0 : 0 * P16.width = 0 := by omega
   rw [e0] at hcor
-  have e : run Gen.Asm.ssecnt_countbody (g + 2) (block Gen.Asm.ssecnt_countbody "sse") s =
-      run Gen.Asm.ssecnt_countbody g (Lentry Gen.Asm.ssecnt_countbody)
-        { r := fun q => if q = Reg.AX then base + len - 16 else s.r q, x := s.x, zf := s.zf, cf := s.cf, mem := s.mem,
-          loads := s.loads, out := s.out } := by
-    asm_step [Gen.Asm.ssecnt_countbody, hSI, hBX, alea]
+  have e : run Gen.Asm.body_countbody (g + 2) (block Gen.Asm.body_countbody "sse") s =
+      run Gen.Asm.body_countbody g (Lentry Gen.Asm.body_countbody)
+        { s with r := fun q => if q = Reg.AX then base + len - 16 else s.r q } := by
+    asm_step [Gen.Asm.body_countbody, hSI, hBX, alea]
   rw [e, hinv.1, hinv.2, hcor.1]
   refine ⟨rfl, ?_⟩
   intro ld hld
@@ -136,9 +134,9 @@ theorem ssecnt_countbodyCase_inv (mem : Nat → UInt8) (base len : Nat) (c : UIn
       s.r .SI = base → s.r .DI = base + di → s.r .AX = base + len - 16 → s.r .BX = len → s.r .R12 = acc →
       (∀ j, s.x .X0 j = c) → (∀ j, s.x .X2 j = 0x20) → s.mem = mem → s.out = none →
       di ≤ len → acc ≤ di → len < n * 16 + di → 9 * n + 22 ≤ f →
-      (run Gen.Asm.ssecnt_countbodyCase f (Lentry Gen.Asm.ssecnt_countbodyCase) s).out =
+      (run Gen.Asm.body_countbodyCase f (Lentry Gen.Asm.body_countbodyCase) s).out =
           some (((cntLoop P16 (fun b => (b ||| 0x20) == c) mem base len n di acc).1 : Nat) : Int) ∧
-      (run Gen.Asm.ssecnt_countbodyCase f (Lentry Gen.Asm.ssecnt_countbodyCase) s).loads =
+      (run Gen.Asm.body_countbodyCase f (Lentry Gen.Asm.body_countbodyCase) s).loads =
           s.loads ++ (cntLoop P16 (fun b => (b ||| 0x20) == c) mem base len n di acc).2 := by
   intro n
   induction n with
@@ -165,14 +163,14 @@ theorem ssecnt_countbodyCase_inv (mem : Nat → UInt8) (base len : Nat) (c : UIn
         rw [hW]; omega
       have hadd : (base + di + 16 % W64) % W64 = base + (di + 16) := by rw [hW]; omega
       obtain ⟨g, rfl⟩ : ∃ g, f = g + 9 := ⟨f - 9, by omega⟩
-      have hstep : ∃ s' : St, run Gen.Asm.ssecnt_countbodyCase (g + 9) (Lentry Gen.Asm.ssecnt_countbodyCase) s =
-            run Gen.Asm.ssecnt_countbodyCase g (Lentry Gen.Asm.ssecnt_countbodyCase) s' ∧
+      have hstep : ∃ s' : St, run Gen.Asm.body_countbodyCase (g + 9) (Lentry Gen.Asm.body_countbodyCase) s =
+            run Gen.Asm.body_countbodyCase g (Lentry Gen.Asm.body_countbodyCase) s' ∧
           s'.r .SI = base ∧ s'.r .DI = base + (di + 16) ∧ s'.r .AX = base + len - 16 ∧ s'.r .BX = len ∧
           s'.r .R12 = acc + cntBlk (fun b => (b ||| 0x20) == c) mem (base + di) 0 16 ∧ (∀ j, s'.x .X0 j = c) ∧
           (∀ j, s'.x .X2 j = 0x20) ∧ s'.mem = mem ∧ s'.out = none ∧ s'.loads = s.loads ++ [(base + di, 16)] := by
         refine ⟨?_, ?_, ?_, ?_, ?_, ?_, ?_, ?_, ?_, ?_, ?_, ?_⟩
         case refine_2 =>
-          asm_step [Gen.Asm.ssecnt_countbodyCase, hSI, hDI, hAX, hBX, hR12, hX0, hX2, hmem, hj, a0, hpc, haccq, hadd]
+          asm_step [Gen.Asm.body_countbodyCase, hSI, hDI, hAX, hBX, hR12, hX0, hX2, hmem, hj, a0, hpc, haccq, hadd]
           rfl
         all_goals simp [hSI, hAX, hBX, hX0, hX2, hout]
       obtain ⟨s', he, i1, i2, i3, i4, i5, i6, i7, i8, i9, i10⟩ := hstep
@@ -191,7 +189,7 @@ theorem ssecnt_countbodyCase_inv (mem : Nat → UInt8) (base len : Nat) (c : UIn
       · rw [if_pos hrem]
         have hz : (len % 16 == 0) = true := beq_iff_eq.mpr hrem
         obtain ⟨g, rfl⟩ : ∃ g, f = g + 22 := ⟨f - 22, by omega⟩
-        constructor <;> asm_step [Gen.Asm.ssecnt_countbodyCase, hSI, hDI, hAX, hBX, hR12, hX0, hX2, hmem, hout, hj, hand, hz, hacc63]
+        constructor <;> asm_step [Gen.Asm.body_countbodyCase, hSI, hDI, hAX, hBX, hR12, hX0, hX2, hmem, hout, hj, hand, hz, hacc63]
       · rw [if_neg hrem]
         have hz : (len % 16 == 0) = false := beq_eq_false_iff_ne.mpr hrem
         have hcx : (16 % W64 + W64 - len % 16 % W64) % W64 = 16 - len % 16 := by rw [hW]; omega
@@ -213,7 +211,7 @@ theorem ssecnt_countbodyCase_inv (mem : Nat → UInt8) (base len : Nat) (c : UIn
         have eaddr : base + (len - 16) = base + len - 16 := by omega
         rw [eaddr]
         obtain ⟨g, rfl⟩ : ∃ g, f = g + 22 := ⟨f - 22, by omega⟩
-        constructor <;> asm_step [Gen.Asm.ssecnt_countbodyCase, hSI, hDI, hAX, hBX, hR12, hX0, hX2, hmem, hout, hj, hand, hz, hcx, hm, a0,
+        constructor <;> asm_step [Gen.Asm.body_countbodyCase, hSI, hDI, hAX, hBX, hR12, hX0, hX2, hmem, hout, hj, hand, hz, hcx, hm, a0,
           hpc, haccq, h63]
 
 set_option maxRecDepth 8000 in
@@ -225,26 +223,24 @@ theorem ssecnt_countbodyCase_correct (mem : Nat → UInt8) (base len : Nat) (c :
     (hSI : s.r .SI = base) (hDI : s.r .DI = base) (hBX : s.r .BX = len) (hR12 : s.r .R12 = 0)
     (hX0 : ∀ j, s.x .X0 j = c) (hX2 : ∀ j, s.x .X2 j = 0x20)
     (hmem : s.mem = mem) (hout : s.out = none) (hl : s.loads = []) (hf : 9 * (len + 1) + 24 ≤ f) :
-    (run Gen.Asm.ssecnt_countbodyCase f (block Gen.Asm.ssecnt_countbodyCase "sse") s).out =
+    (run Gen.Asm.body_countbodyCase f (block Gen.Asm.body_countbodyCase "sse") s).out =
         some ((specCount (fun b => (b ||| 0x20) == c) mem base len : Nat) : Int) ∧
-    ∀ ld ∈ (run Gen.Asm.ssecnt_countbodyCase f (block Gen.Asm.ssecnt_countbodyCase "sse") s).loads, base ≤ ld.1 ∧ ld.1 + ld.2 ≤ base + len := by
+    ∀ ld ∈ (run Gen.Asm.body_countbodyCase f (block Gen.Asm.body_countbodyCase "sse") s).loads, base ≤ ld.1 ∧ ld.1 + ld.2 ≤ base + len := by
   have hW : W64 = 2 ^ 64 := rfl
   obtain ⟨g, rfl⟩ : ∃ g, f = g + 2 := ⟨f - 2, by omega⟩
   have alea : (base + len + dispN (-16)) % W64 = base + len - 16 := by rw [dispNm16, hW]; omega
   have hinv := ssecnt_countbodyCase_inv mem base len c h16 hb (len + 1) 0 0
-    { r := fun q => if q = Reg.AX then base + len - 16 else s.r q, x := s.x, zf := s.zf, cf := s.cf, mem := s.mem,
-      loads := s.loads, out := s.out } g
+    { s with r := fun q => if q = Reg.AX then base + len - 16 else s.r q } g
     (by simp [hSI]) (by simp [hDI]) (by simp) (by simp [hBX]) (by simp [hR12]) hX0 hX2 hmem hout
     (by omega) (by omega) (by omega) (by omega)
   have hcor := cntLoop_correct P16 ⟨rfl, rfl, by decide⟩ (fun b => (b ||| 0x20) == c) mem base len h16 (len + 1) 0 0 (by omega)
     (by show len < (len + 1 + 0) * 16; omega) (by simp [cntBlk])
   have e0 : 0 * P16.width = 0 := by omega
   rw [e0] at hcor
-  have e : run Gen.Asm.ssecnt_countbodyCase (g + 2) (block Gen.Asm.ssecnt_countbodyCase "sse") s =
-      run Gen.Asm.ssecnt_countbodyCase g (Lentry Gen.Asm.ssecnt_countbodyCase)
-        { r := fun q => if q = Reg.AX then base + len - 16 else s.r q, x := s.x, zf := s.zf, cf := s.cf, mem := s.mem,
-          loads := s.loads, out := s.out } := by
-    asm_step [Gen.Asm.ssecnt_countbodyCase, hSI, hBX, alea]
+  have e : run Gen.Asm.body_countbodyCase (g + 2) (block Gen.Asm.body_countbodyCase "sse") s =
+      run Gen.Asm.body_countbodyCase g (Lentry Gen.Asm.body_countbodyCase)
+        { s with r := fun q => if q = Reg.AX then base + len - 16 else s.r q } := by
+    asm_step [Gen.Asm.body_countbodyCase, hSI, hBX, alea]
   rw [e, hinv.1, hinv.2, hcor.1]
   refine ⟨rfl, ?_⟩
   intro ld hld
